@@ -932,6 +932,20 @@ func TestC04(t *testing.T) {
 	if c.Shard == 0 {
 		c04RunSKBodies(c)
 		c04RunSANested(c)
+		// every notify type and every configuration attribute type with a few data lengths, as payload bodies (exact capacity
+		// against poisoned spare capacity): a validator for ONE type code that reads a fixed amount is reached with certainty
+		for v := 0; v < 65536 && c.Failures() <= 5; v++ {
+			for _, n := range []int{0, 1, 3, 16} {
+				body := append([]byte{0, 0, byte(v >> 8), byte(v)}, pat(n, byte(v))...)
+				c04Sweep.Eval(c, c04In{Entry: "body:" + model.KNotify, B: body, Origin: "id-sweep"})
+			}
+			if v < 32768 {
+				for _, n := range []int{0, 1, 3, 16} {
+					body := append([]byte{1, 0, 0, 0, byte(v >> 8), byte(v), 0, byte(n)}, pat(n, byte(v))...)
+					c04Sweep.Eval(c, c04In{Entry: "body:" + model.KCP, B: body, Origin: "id-sweep"})
+				}
+			}
+		}
 		names := []string{"", "bogus", "ENCR_AES_CBC_512", "AUTH_HMAC_SHA2_512_256", "encr_aes_cbc_128", "auth_hmac_sha1_96", "ENCR_AES_CBC_128 ", "AUTH_HMAC_SHA1_96\x00"}
 		for _, e := range append([]string{"ENCR_AES_CBC_128"}, names...) {
 			for _, i := range append([]string{"AUTH_HMAC_SHA1_96"}, names...) {
